@@ -97,7 +97,7 @@ class ModelScripts:
         return lines
 
 
-def random_history(rng, kind, nkeys, nvals, nops, p_fail=0.05, with_bad=False, two=True, init_pairs=0, alias=True):
+def random_history(rng, kind, nkeys, nvals, nops, p_fail=0.05, with_bad=False, two=True, init_pairs=0, alias=True, refuse=False):
     """A random in-contract history (plus absent-key get/rem, which the properties define) over up to 3 containers."""
     lines = ["reset"]
     kinds = {}
@@ -161,6 +161,8 @@ def random_history(rng, kind, nkeys, nvals, nops, p_fail=0.05, with_bad=False, t
             lines.append("del %d" % o)
             del kinds[o]
             del present[o]
+        elif with_bad and refuse and rng.random() < 0.35:
+            lines.append("bad %d setrefuse %d" % (o, k))          # value type Probe: a value its Assign refuses, for a present or an absent key
         elif with_bad:
             lines.append("bad %d %s" % (o, rng.choice(["settype", "setval", "setnullk", "setnullv", "getnull",
                                                           "remnull", "memnull", "gettype", "remtype", "memtype"])))
